@@ -33,6 +33,10 @@ def main():
                     inv.subtract({k: float.fromhex(v) for k, v in op[1].items()}, "num")
                 elif op[0] == "remove":
                     inv.remove(op[1])
+                elif op[0] == "remove_id":
+                    inv.remove(rd.Nuclide(op[1]).id)
+                elif op[0] == "remove_nuclide":
+                    inv.remove(rd.Nuclide(op[1]))
                 elif op[0] == "remove_list":
                     inv.remove(list(op[1]))
             if hp:
@@ -93,6 +97,17 @@ def main():
                 r["lin_comb"] = {k: float(v).hex() for k, v in comb.decay(t, c["tunit"]).numbers().items()}
                 parts = inv.decay(t, c["tunit"]) * a + Y.decay(t, c["tunit"])
                 r["lin_sum"] = {k: float(v).hex() for k, v in parts.numbers().items()}
+                # the same sum built IN PLACE on an object that has already been used for a calculation
+                Zi = cls({k: float.fromhex(v) for k, v in c["contents"].items()}, c["unit"])
+                Zi.decay(t, c["tunit"]); Zi.cumulative_decays(t, c["tunit"])
+                Zi.add({k: float.fromhex(v) for k, v in c["lin"]["contents"].items()}, c["unit"])
+                r["inpl_n0"] = {}
+                for k, v in Zi.contents.items():
+                    if hp:
+                        r["inpl_n0"][k] = [str(int(v.p)), str(int(v.q))] if getattr(v, "is_Rational", False) else None
+                    else:
+                        f = Fraction(float(v)); r["inpl_n0"][k] = [str(f.numerator), str(f.denominator)]
+                r["inpl_out"] = {k: float(v).hex() for k, v in Zi.decay(t, c["tunit"]).numbers().items()}
             if c.get("zero"):
                 z = inv.decay(0.0, c["tunit"]).numbers()
                 r["zero_out"] = {k: float(v).hex() for k, v in z.items()}
